@@ -667,7 +667,7 @@ func (x *Exec) opCreatePermission(st *Step) {
 			if familyOfIP(pa.IP) != a.Family {
 				refuse, props = "peer of the other address family", []string{"C01"}
 				x.St.inc("perm-wrong-family")
-			} else if x.w.cfg.denied(c.Idx, pa.IP) {
+			} else if x.w.deniedAt(x.opStart, c.Idx, pa.IP) {
 				refuse, props = "peer vetoed by the permission handler", []string{"C01"}
 				x.St.inc("perm-vetoed")
 			}
@@ -746,7 +746,7 @@ func (x *Exec) opChannelBind(st *Step) { //nolint:cyclop
 
 		return
 	}
-	if familyOfIP(pa.IP) != a.Family || x.w.cfg.denied(c.Idx, pa.IP) {
+	if familyOfIP(pa.IP) != a.Family || x.w.deniedAt(x.opStart, c.Idx, pa.IP) {
 		if success {
 			x.fail([]string{"C01"}, "channelbind-should-fail", "ChannelBind to a vetoed / wrong-family peer %v answered with success", pa)
 		}
@@ -856,7 +856,7 @@ func (x *Exec) dropReason(a *MAlloc, pa *net.UDPAddr) string {
 		return "no-allocation"
 	case a.TCP:
 		return "tcp-allocation"
-	case x.w.cfg.denied(a.Client, pa.IP):
+	case x.w.deniedAt(x.opStart, a.Client, pa.IP):
 		return "vetoed-peer"
 	case familyOfIP(pa.IP) != a.Family:
 		return "wrong-family"
